@@ -851,6 +851,7 @@ func (p *Parser) parsePoryswitchTextStatement() (string, string, error) {
 		if !ok && p.enableEnvironmentErrors {
 			return "", "", NewParseError(startToken, fmt.Sprintf("no poryswitch case found for '%s=%s', which was specified with the '-s' option", switchCase, switchValue))
 		}
+		strTypeValue = strTypeCases["_"]
 	}
 	return strValue, strTypeValue, nil
 }
